@@ -12,10 +12,16 @@ open Gen.Limits
 structure ProcEng where
   s : PState := {}
   defs : List (String × AppCfg) := []
-  -- ghost ledgers for the Spec (C01/C02/C04): per run, ids offered; ids acknowledged (with multiplicity); sends per id
-  offered : List (String × String × Nat) := []      -- (run, kind, id)
+  -- ghost ledgers for the Spec predicates (C01/C02/C03/C04), kept from the ops and the IMPLEMENTATION's results
+  offered : List (String × String × Nat) := []      -- (run, cmd, id) submitted by agents under a live run
+  evicted : List (String × String × Nat) := []      -- dropped by a capacity limit / given up (as the model decides)
   acked : List (String × String × Nat) := []
-  sent : List (String × String × Nat) := []
+  noRetry : List (String × String × Nat) := []      -- failed with a non-retryable status or category
+  sends : List ((String × String × Nat) × Nat) := []
+  runInfo : List (String × (String × String × String × String)) := []   -- run -> (handle, license, collector, hdr)
+  terminal : List (String × String) := []           -- handle -> "disconnected" | "invalidlicense"
+  needConnect : List String := []                    -- handles whose connect must be (re)attempted
+  lastAttempt : List (String × Int) := []
 deriving Inhabited
 
 def natList (l : List Nat) : String := String.intercalate "," (l.map toString)
@@ -126,11 +132,118 @@ def payloadIds (p : Payload) : List (String × Nat) :=
   | .traces s f r => (s.toList ++ f.toList ++ r.toList).map (fun e => ("tr", e.data))
   | _ => []
 
-def procStep (st : ProcEng) (t : Tokens) (_impl : Option String) : ProcEng × StepOut :=
+structure ImplReq where
+  cmd : String
+  run : String
+  lic : String
+  coll : String
+  hdr : String
+  payload : String
+deriving Inhabited
+
+def parseImplReqs (line : String) : List ImplReq :=
+  match line.splitOn "reqs=" with
+  | [_, body] =>
+    let body := body.trimAscii.toString
+    if body == "-" || body == "" then [] else
+    (body.splitOn ";").filterMap (fun r => match r.splitOn "|" with
+      | cmd :: run :: lic :: coll :: hdr :: rest =>
+        some { cmd := cmd, run := if run == "-" then "" else run, lic := lic, coll := coll,
+               hdr := if hdr == "-" then "" else hdr, payload := String.intercalate "|" rest }
+      | _ => none)
+  | _ => []
+
+/-- the ghost ids inside a canonical payload string (`E[rs=..,seen=..|1,2]`, `L[..]`, `R[..]`, `T[..]`) -/
+def idsOfPayloadStr (p : String) : List Nat :=
+  let inner := ((p.dropWhile (· != '[')).drop 1).toString
+  let inner := (inner.takeWhile (· != ']')).toString
+  let inner := match inner.splitOn "|" with
+    | [_, b] => b
+    | [a] => a
+    | _ => ""
+  if p.startsWith "E[" || p.startsWith "L[" || p.startsWith "R[" || p.startsWith "T[" then
+    (inner.splitOn ",").filterMap String.toNat?
+  else []
+
+def liveIds (h : HarvestM) : List (String × Nat) :=
+  (h.txn.evs.toList.map (fun e => ("analytic_event_data", e.data))) ++
+  (h.custom.evs.toList.map (fun e => ("custom_event_data", e.data))) ++
+  (h.errEv.evs.toList.map (fun e => ("error_event_data", e.data))) ++
+  (h.span.evs.toList.map (fun e => ("span_event_data", e.data))) ++
+  (h.log.evs.toList.map (fun e => ("log_event_data", e.data))) ++
+  (h.errors.toList.map (fun e => ("error_data", e.data))) ++
+  ((h.trSyn.toList ++ h.trForce.toList ++ h.trReg.toList).map (fun e => ("transaction_sample_data", e.data)))
+
+def reqIds (r : Req) : List (String × Nat) :=
+  match r.payload with
+  | .events x => x.evs.toList.map (fun e => (r.cat.cmd, e.data))
+  | .errors a => a.toList.map (fun e => (r.cat.cmd, e.data))
+  | .traces a b c => (a.toList ++ b.toList ++ c.toList).map (fun e => (r.cat.cmd, e.data))
+  | _ => []
+
+def txnIds (t : TxnM) : List (String × Nat) :=
+  (t.event.toList.map (fun i => ("analytic_event_data", i))) ++ (t.customs.map (fun i => ("custom_event_data", i))) ++
+  (t.errEvs.map (fun i => ("error_event_data", i))) ++ (t.spans.map (fun i => ("span_event_data", i))) ++
+  (t.logs.map (fun i => ("log_event_data", i))) ++ (t.errors.map (fun e => ("error_data", e.data))) ++
+  (t.trace.toList.map (fun x => ("transaction_sample_data", x.2.1)))
+
+def retryableCmd (cmd : String) : Bool :=
+  cmd == "metric_data" || cmd == "analytic_event_data" || cmd == "custom_event_data" || cmd == "error_event_data" ||
+  cmd == "span_event_data" || cmd == "log_event_data"
+
+def retryableStatus (o : Outcome) : Bool :=
+  match o with
+  | .status c => c == 408 || c == 429 || c == 500 || c == 503
+  | _ => false
+
+def sendsOf (l : List ((String × String × Nat) × Nat)) (k : String × String × Nat) : Nat :=
+  match l.find? (·.1 == k) with
+  | some p => p.2
+  | none => 0
+
+/-- Spec checks applied to every request the IMPLEMENTATION was observed to make (C01, C02, C03, C04) -/
+def checkImplReqs (st : ProcEng) (reqs : List ImplReq) : ProcEng × List String :=
+  reqs.foldl (fun (acc : ProcEng × List String) q =>
+    let (st, fails) := acc
+    if q.cmd == "preconnect" || q.cmd == "connect" then
+      -- lifecycle: no connect activity for a terminally disconnected / invalid-license application
+      let h := (st.defs.find? (fun d => d.2.license == q.lic)).map (·.1)
+      match h with
+      | none => (st, fails ++ ["C04 proc: a connect request carries a license no application has"])
+      | some h =>
+        let f1 := if st.terminal.any (·.1 == h) then ["C03 lifecycle: a connect was attempted for an application that the collector disconnected for good (410) or whose license is invalid"] else []
+        let st := if q.cmd == "preconnect" then { st with needConnect := st.needConnect.filter (· != h),
+                                                           lastAttempt := (h, st.s.now) :: st.lastAttempt.filter (·.1 != h) } else st
+        (st, fails ++ f1)
+    else
+      let info := (st.runInfo.find? (·.1 == q.run)).map (·.2)
+      let f1 := match info with
+        | none => ["C04 proc: a request was made for a run id the collector never issued"]
+        | some (_, lic, coll, hdr) =>
+          (if q.lic == lic then [] else ["C04 proc: a request carries another application's license key"]) ++
+          (if q.coll == coll then [] else ["C04 proc: a request goes to another application's collector host"]) ++
+          (if q.hdr == hdr then [] else ["C04 proc: a request carries request headers that were not issued for its run"])
+      let ids := (idsOfPayloadStr q.payload).map (fun i => (q.run, q.cmd, i))
+      let f2 := if ids.all (fun k => st.offered.contains k) then [] else ["C04 proc: a payload contains data that was not submitted under its run id"]
+      let f3 := if ids.any (fun k => st.acked.contains k) then ["C01 proc: data that the collector already acknowledged was sent again"] else []
+      let f4 := if ids.any (fun k => st.noRetry.contains k) then ["C02 proc: data was re-sent after a non-retryable failure (status or category)"] else []
+      let sends := ids.foldl (fun l k => (k, sendsOf l k + 1) :: l.filter (·.1 != k)) st.sends
+      let f5 := if ids.any (fun k => sendsOf sends k > Gen.Limits.FailedEventsAttemptsLimit + 1) then ["C02 proc: a payload was re-sent more often than the attempt limit allows"] else []
+      ({ st with sends := sends }, fails ++ f1 ++ f2 ++ f3 ++ f4 ++ f5)) (st, [])
+
+/-- ids of a run that left the model's containers without being sent: evicted by capacity or given up -/
+def noteEvictions (st : ProcEng) (run : String) (before : List (String × Nat)) (incoming : List (String × Nat)) : ProcEng :=
+  let after := match getRun st.s run with
+    | some r => liveIds r.h
+    | none => []
+  let gone := (before ++ incoming).filter (fun x => !after.contains x)
+  { st with evicted := st.evicted ++ gone.map (fun x => (run, x.1, x.2)) }
+
+def procStepCore (st : ProcEng) (t : Tokens) (_impl : Option String) : ProcEng × StepOut :=
   match tokStr t 1 with
   | "init" =>
     let tmo := ((kvGet t "timeout").bind String.toNat?).getD 0
-    ({ st with s := { appTimeout := (tmo : Int) * 1000000000 } , offered := [], acked := [], sent := [] }, { model := "ok" })
+    ({ st with s := { appTimeout := (tmo : Int) * 1000000000 } , offered := [], acked := [] }, { model := "ok" })
   | "defapp" =>
     let h := tokStr t 2
     ({ st with defs := (h, parseAppCfg h t) :: st.defs.filter (·.1 != h) }, { model := "ok" })
@@ -147,8 +260,17 @@ def procStep (st : ProcEng) (t : Tokens) (_impl : Option String) : ProcEng × St
       ({ st with s := s }, { model := s!"reply={replyStr rep} reqs={canonReqs reqs}" })
   | "txn" =>
     let run := tokStr t 2
-    let s := processTxn st.s run (parseTxn t)
-    ({ st with s := s }, { model := "ok" })
+    let txn := parseTxn t
+    let before := match getRun st.s run with
+      | some r => liveIds r.h
+      | none => []
+    let alive := (getRun st.s run).isSome
+    let s := processTxn st.s run txn
+    let st := { st with s := s }
+    let st := if alive then
+        noteEvictions { st with offered := st.offered ++ (txnIds txn).map (fun x => (run, x.1, x.2)) } run before (txnIds txn)
+      else st
+    (st, { model := "ok" })
   | "trigger" =>
     let run := tokStr t 2
     let mask := tokNat t 3
@@ -193,3 +315,96 @@ def procStep (st : ProcEng) (t : Tokens) (_impl : Option String) : ProcEng × St
     let reqs := reqs.filter (fun r => r.cat != .dataUsage)
     ({ st with s := s }, { model := s!"returned={if ret then 1 else 0} reqs={canonReqs reqs}" })
   | _ => (st, { model := "bad-op" })
+
+
+/-- the engine step: model transition + Spec predicates on the implementation's result -/
+def procStep (st0 : ProcEng) (t : Tokens) (impl : Option String) : ProcEng × StepOut :=
+  let op := tokStr t 1
+  -- what the reply op is about, before the transition
+  let picked : Option Req := if op == "reply" then pickReq st0.s (tokStr t 2) (tokStr t 3) (tokNat t 4) else none
+  let beforeLive : List (String × Nat) := match picked with
+    | some r => (match getRun st0.s r.run with | some rm => liveIds rm.h | none => [])
+    | none => []
+  let (st, out) := procStepCore st0 t impl
+  match impl with
+  | none => (st, out)
+  | some line =>
+    -- bookkeeping that follows the ops
+    let st := if op == "init" then { st with evicted := [], noRetry := [], sends := [], runInfo := [], terminal := [], needConnect := [], lastAttempt := [] } else st
+    let o : Outcome := parseOutcome (tokStr t 5)
+    let (st, f0) : ProcEng × List String := match picked with
+      | none => (st, [])
+      | some r =>
+        match r.cat with
+        | .preconnect =>
+          if o == Outcome.ok then (st, [])
+          else
+            let st := if o == Outcome.status 410 then { st with terminal := (r.app, "disconnected") :: st.terminal }
+                      else if o == Outcome.status 401 then { st with terminal := (r.app, "invalidlicense") :: st.terminal }
+                      else { st with needConnect := r.app :: st.needConnect }
+            (st, [])
+        | .connect =>
+          if o == Outcome.ok && (kvGet t "bad").isNone then
+            let hdr := (let h := kvOr t "hdr" "-"; if h == "-" then "" else h)
+            ({ st with runInfo := (kvOr t "run" "r?", (r.app, r.license, r.collector, hdr)) :: st.runInfo }, [])
+          else
+            let st := if o == Outcome.status 410 then { st with terminal := (r.app, "disconnected") :: st.terminal }
+                      else if o == Outcome.status 401 then { st with terminal := (r.app, "invalidlicense") :: st.terminal }
+                      else { st with needConnect := r.app :: st.needConnect }
+            (st, [])
+        | _ =>
+          let ids : List (String × String × Nat) := (reqIds r).map (fun (x : String × Nat) => (r.run, x.1, x.2))
+          if o == Outcome.ok then
+            let dup := ids.any (fun k => st.acked.contains k)
+            ({ st with acked := st.acked ++ ids }, if dup then ["C01 proc: the same data was acknowledged twice"] else [])
+          else
+            let alive := (getRun st0.s r.run).isSome
+            let st := if !(retryableStatus o && retryableCmd r.cat.cmd) then { st with noRetry := st.noRetry ++ ids } else st
+            -- whatever did not make it back into the current harvest is given up / evicted
+            let st := if alive then noteEvictions st r.run beforeLive (reqIds r) else st
+            -- verdicts about the application
+            let h := (st.runInfo.find? (·.1 == r.run)).map (·.2.1)
+            let st := match h with
+              | none => st
+              | some h =>
+                if !alive then st
+                else if o == Outcome.status 410 then { st with terminal := (h, "disconnected") :: st.terminal }
+                else if o == Outcome.status 401 || o == Outcome.status 409 then { st with needConnect := h :: st.needConnect }
+                else st
+            (st, [])
+    let reqs : List ImplReq := parseImplReqs line
+    let (st, f1) := checkImplReqs st reqs
+    -- lifecycle checks on agent queries
+    let f2 := if op == "app" then
+        let h := tokStr t 2
+        let rep := (kvGet (tokenize line) "reply").getD ""
+        let term := (st.terminal.find? (·.1 == h)).map (·.2)
+        (match term with
+          | some want => if rep == want || rep == "stillvalid" then [] else ["C03 lifecycle: agents are not told that the application is " ++ want]
+          | none => []) ++
+        (if rep.startsWith "connected:" then
+            (if (getRun st.s ((rep.drop 10).toString)).isSome then [] else ["C03 lifecycle: agents are told the application is connected although the daemon holds no run for it"])
+         else []) ++
+        (if rep == "stillvalid" then
+            (match kvGet t "run" with
+              | some r => if (getRun st.s r).isSome then [] else ["C03 lifecycle: a run id the daemon does not hold was confirmed as still valid"]
+              | none => ["C03 lifecycle: still-valid without a run id"])
+         else []) ++
+        (if rep != "stillvalid" && st.needConnect.contains h && term.isNone &&
+            st.s.now - ((st.lastAttempt.find? (·.1 == h)).map (·.2)).getD (-1000000000000000000) ≥ (Gen.Limits.AppConnectAttemptBackoff : Int) then
+           ["C03 lifecycle: a failed connect (or a restart) was not retried although the back-off has expired"] else [])
+      else []
+    -- completeness at the final flush (C01/C02/C11)
+    let f3 := if op == "cleanexit" then
+        let finalIds : List (String × String × Nat) := reqs.flatMap (fun (q : ImplReq) => (idsOfPayloadStr q.payload).map (fun i => (q.run, q.cmd, i)))
+        let parked : List (String × String × Nat) := st0.s.inflight.flatMap (fun (r : Req) => (reqIds r).map (fun (x : String × Nat) => (r.run, x.1, x.2)))
+        -- runs whose application has been inactive for longer than the time-out are dropped, not flushed (C03)
+        let liveRuns := (st0.s.runs.filter (fun p => match getApp st0.s p.2.app with
+          | some a => !(st0.s.appTimeout > 0 && st0.s.now - a.lastActivity ≥ st0.s.appTimeout)
+          | none => false)).map (·.1)
+        let missing := st.offered.filter (fun (k : String × String × Nat) => liveRuns.contains k.1 && !st.evicted.contains k && !st.acked.contains k &&
+                                                    !parked.contains k && !finalIds.contains k)
+        (if missing.isEmpty then [] else [s!"C01 proc: accepted data was neither acknowledged, nor still in flight, nor in the final flush: {missing.take 3 |>.map (fun (k : String × String × Nat) => k.1 ++ "/" ++ k.2.1 ++ "/" ++ toString k.2.2)}"]) ++
+        (if (kvGet (tokenize line) "returned") == some "1" then [] else ["C11 shutdown: the final flush did not return"])
+      else []
+    (st, { out with specFails := out.specFails ++ f0 ++ f1 ++ f2 ++ f3 })
